@@ -73,6 +73,12 @@ void epsic::covariant_coordinator::get()
 Matrix<2,2,double> sqrt (const Matrix<2,2,double>& C)
 {
   double det = C[0][0]*C[1][1] - C[0][1]*C[1][0];
+
+  /* the log-covariance matrix is singular at either end of the admissible
+     range of correlation coefficients, where det can round below zero */
+  if (det < 0)
+    det = 0;
+
   double trace = C[0][0]+C[1][1];
 
   double s = sqrt(det);
